@@ -17,6 +17,25 @@ def call_method(ctx, b, method, r, invoked):
         # function returns after the owner's record was closed cannot complete normally)
         invoked.append(('t_fn_ret', ctx.clock()))
         return None
+    def fn_raise(builder, *a, **k):
+        # a nested function that is still running when its owner's record is closed, then makes an
+        # observation nobody else makes and raises (C17r): the call must be rejected AND leave no trace
+        invoked.append(method)
+        st = getattr(ctx, 'late_started', None)
+        if st is not None:
+            st.set()
+        ev = getattr(ctx, 'late_event', None)
+        if ev is not None and not ev.wait(20):
+            invoked.append(('timeout', 0))
+        try:
+            builder.exists(ctx.ap('probe'))
+        finally:
+            invoked.append(('t_fn_ret', ctx.clock()))
+        raise ValueError('late function raises')
+    if method == 'subbuild_raise':
+        return b.subbuild('LATE', fn_raise, r)
+    if method == 'build_file_raise':
+        return b.build_file(p, 'LATE', fn_raise)
     if method == 'build_file':
         return b.build_file(p, 'LATE', fn)
     if method == 'build_file_with_comparison':
@@ -88,19 +107,42 @@ def st_fork_late(ctx, fr, s, acc):
         with ctx.lock:
             ctx.stragglers.append({'tag': tag, 'where': where, 'method': method, 'path': r,
                                    't_call': t_call, 't_ret': t_ret, 'out': out, 'invoked': bool(invoked),
-                                   't_fn_ret': max([x[1] for x in invoked if isinstance(x, tuple)] or [None]),
+                                   't_fn_ret': max([x[1] for x in invoked if isinstance(x, tuple) and x[0] == 't_fn_ret']
+                                                   or [None]),
+                                   'fn_timeout': any(isinstance(x, tuple) and x[0] == 'timeout' for x in invoked),
                                    'thread': tid})
     fork = ctx.hooks.get('fork')
     if fork is not None:
         fork(worker)
     else:
         t = threading.Thread(target=worker, daemon=True)
+        spanning = method.endswith('_raise')
+        if spanning:
+            ctx.late_event = threading.Event()
+            ctx.late_started = threading.Event()
         with ctx.lock:
             ctx.free_threads = getattr(ctx, 'free_threads', []) + [t]
         t.start()
+        if spanning:
+            # the owner goes on (and returns) only when the straggler is inside its nested function
+            ctx.late_started.wait(20)
     return acc
 
 
+def st_late_release(ctx, fr, s, acc):
+    # ['x', 'late_release']: the owner's call has returned; let the spanning straggler's function finish
+    # and wait for the straggler before the enclosing function goes on
+    if not ctx.real:
+        return acc
+    ev = getattr(ctx, 'late_event', None)
+    if ev is not None:
+        ev.set()
+    for t in getattr(ctx, 'free_threads', []):
+        t.join(20)
+    return acc
+
+
+EXT['late_release'] = st_late_release
 EXT['stash'] = st_stash
 EXT['late'] = st_late
 EXT['fork_late'] = st_fork_late
